@@ -15,13 +15,27 @@ SOURCES = ['silk/NLSF_decode.c', 'silk/NLSF_stabilize.c', 'silk/NLSF2A.c', 'silk
 REQUIRED_THEOREMS = ['OpusProps.C18.' + t for t in (
     'cb_wellformed', 'stabilize_post', 'nlsf_decode_ordered', 'nlsf2a_passes_stability',
     'decode_parameters_stable', 'gain_index_inv', 'gain_step_range', 'gain_step_nowrap',
-    'gains_quant_dequant', 'gains_quant_index_in_range', 'nlsf_interp_enc_dec_agree', 'pitch_in_range')]
-UNPROVED = ['lpc_fit_int16 (design priority P1): the (opus_int16) casts in silk_LPC_fit and in the re-quantisation inside '
-            'the stabilisation loop of silk_NLSF2A never truncate. The model applies the truncation, so every proved '
-            'theorem holds with it; that the truncation is the identity is only checked by the differential run.',
-            'range lemmas "32-bit wrap never happens" for silk_NLSF2A_find_poly / silk_bwexpander_32 / '
-            'LPC_inverse_pred_gain_QA_c intermediate sums: plain C int arithmetic is modelled unbounded; signed overflow '
-            'would be undefined behaviour in C and is watched for by UBSan in the correspondence build only.']
+    'gains_quant_dequant', 'gains_quant_index_in_range', 'nlsf_interp_enc_dec_agree', 'pitch_in_range',
+    # range theorems: no 32-bit wrap, no truncating (opus_int16) cast
+    'bwexpander32_nowrap', 'lpc_fit_int16', 'nlsf2a_nowrap_d10', 'nlsf2a_nowrap_d16_partial',
+    'nlsf2a_d16_unordered_overflows', 'nlsf_decode_nowrap', 'nlsf_decode_domain_from_decoder', 'log2lin_nowrap',
+    'gains_dequant_nowrap', 'decode_pitch_nowrap', 'inverse_pred_gain_nowrap',
+    'inverse_pred_gain_reflection_bounded', 'nlsf2a_reflection_bounded')]
+UNPROVED = ['nlsf2a_nowrap_d16 (the full statement is a comment block in OpusProps/C18.lean): for ORDERED NLSF vectors of order 16 '
+            'the final subtraction a32_QA1[k] = -/+Qtmp - Ptmp (NLSF2A.c:125-126) fits 32 bits. Proved instead '
+            '(nlsf2a_nowrap_d16_partial): everything before that subtraction fits for all in-range inputs, |a32_QA1| < 2^31.66, '
+            'and everything after it (silk_LPC_fit, silk_bwexpander_32, the stabilisation loop, all (opus_int16) casts) is free of '
+            'wrap and truncation whenever a32_QA1 fits; for order 10 there is no gap (nlsf2a_nowrap_d10). Ordering is necessary '
+            '(nlsf2a_d16_unordered_overflows: the in-range input 32767,0,32767,0,... overflows in C, UBSan-confirmed); that it is '
+            'sufficient is the line-spectral-pair interlacing theorem (|a_k| <= C(16,k) <= 12870, i.e. 0.79*2^31 in Q17), which '
+            'needs root-location arguments out of reach here. Guarded by the search on ordered inputs (64-bit recomputation + '
+            'UBSan on the real function; worst value found = the theoretical extreme 1686896640).',
+            'real-arithmetic stability: inverse_pred_gain_reflection_bounded bounds the reflection coefficients of the '
+            'FIXED-POINT step-down recursion by A_LIMIT = 0.99975; that the exact reflection coefficients of the real-coefficient '
+            'filter are below 1 needs an error analysis of silk_INVERSE32_varQ / silk_RSHIFT_ROUND64 that is not done.',
+            '32-bit range of the sums inside silk_NLSF_stabilize (centre frequencies, min/max centres: sums of at most 17 '
+            'opus_int16 values, below 2^20) and of the NLSF interpolation are not stated as trace lemmas; their opus_int16 stores '
+            'are covered by stabilize_post / nlsf_interp_enc_dec_agree.']
 RULE = ('exhaustive: both NLSF codebooks x all 32 first-stage vectors x residual patterns (all-at-extreme and '
         'one-at-extreme for each coefficient at +-10/+-4/+-1, zero, alternating) + silk_NLSF_unpack for every index; all '
         '64 x (64+41) (prev_ind, index, conditional) gain steps; all contour indices x {8,12,16} kHz x {2,4} sub-frames x '
@@ -31,9 +45,10 @@ RULE = ('exhaustive: both NLSF codebooks x all 32 first-stage vectors x residual
         '(via silk_decode_parameters) and raw in-range vectors; silk_LPC_fit / silk_bwexpander_32 / inverse prediction '
         'gain on random filters; gain chains and the quantiser on log-uniform and near-level gains. A case is distinct '
         'by its (operation, outcome kind) class.')
-NOT_COVERED = ['that a non-zero silk_LPC_inverse_pred_gain implies analytic stability of the real-coefficient filter '
-               '(a theorem about the fixed-point step-down recursion); "stable" is discharged at the level of the '
-               "codec's own test, including its 1/MAX_PREDICTION_POWER_GAIN bound",
+NOT_COVERED = ['that a non-zero silk_LPC_inverse_pred_gain implies analytic stability of the real-coefficient filter: proved is '
+               'the bound |rc| <= 0.99975 on every reflection coefficient of the FIXED-POINT step-down recursion '
+               '(inverse_pred_gain_reflection_bounded) and the 1/MAX_PREDICTION_POWER_GAIN bound; the rounding-error analysis '
+               'that would transfer this to exact arithmetic is not done',
                'the LTP (long-term prediction) codebook gains and LTP scaling of silk_decode_parameters and the '
                'bandwidth expansion after packet loss (silk_bwexpander on the Q12 filters) are not modelled',
                'the encoder-side search that picks NLSF indices (silk_NLSF_encode / silk_NLSF_del_dec_quant) is not '
@@ -139,6 +154,9 @@ def classify(ctx, tie, mm):
         out = _ints(impl[3:]) if impl.startswith('OK ') else None
         if not _spaced(out, _delta(toks[2])):
             why = "silk_NLSF_decode output is not ordered with the codebook's minimum spacing"
+    elif op in ('nlsf2a', 'lpcfit') and re.search(r'tr=([1-9]\d*)', impl):
+        why = ('an (opus_int16) cast in silk_LPC_fit / the re-quantisation of silk_NLSF2A truncated on this input '
+               '(%s casts; theorem lpc_fit_int16 proves 0 for the modelled code)' % re.search(r'tr=(\d+)', impl).group(1))
     elif op == 'nlsf2a':
         m = re.search(r'ig=(-?\d+)', impl)
         if not m or int(m.group(1)) == 0:
@@ -167,7 +185,7 @@ def search(ctx):
     n = 20000 if ctx.quick else 400000
     env = {'ASAN_OPTIONS': 'detect_leaks=0:abort_on_error=0', 'UBSAN_OPTIONS': 'print_stacktrace=1'}
     rc, out = common.sh([h, 'search', str(ctx.seed), str(n)], env=env, timeout=3000)
-    wit, cases = [], 0
+    wit, cases, extra = [], 0, []
     for line in out.split('\n'):
         if line.startswith('V '):
             parts = line[2:].split(' | ')
@@ -177,20 +195,26 @@ def search(ctx):
         m = re.match(r'# search cases=(\d+) violations=(\d+)', line)
         if m:
             cases = int(m.group(1))
+        if line.startswith('# ordered-NLSF2A'):
+            extra.append(line[2:])
     if rc != 0 and not wit:
         tail = [l for l in out.split('\n') if 'runtime error' in l or 'ERROR: AddressSanitizer' in l or l.startswith('SUMMARY')]
         wit.append({'suite': 'silkparams-search', 'input': 'search %d %d' % (ctx.seed, n),
                     'expected': 'dequantisers run without sanitizer report / abort',
                     'observed': '; '.join(tail[:4]) or ('exit code %d: %s' % (rc, out[-400:])),
                     'why': 'the implementation trapped (out-of-bounds read, undefined behaviour or assertion) during the search'})
-    return {'cases': cases, 'distinct': 9,
+    return {'cases': cases, 'distinct': 10,
             'oracle': 'on the real library: silk_NLSF_decode outputs ordered with deltaMin spacing; silk_NLSF_stabilize '
                       'post-condition on arbitrary int16 vectors and admissible tables; silk_LPC_inverse_pred_gain of '
                       'silk_NLSF2A outputs (final and interpolated, via silk_decode_parameters) >= 1/MAX_PREDICTION_POWER_GAIN; '
                       'encoder-side silk_interpolate + NLSF2A == decoder-side; gains and LastGainIndex in range over all '
                       '64x(64+41) steps and random chains; silk_gains_dequant(silk_gains_quant(g)) == encoder reconstruction; '
-                      'pitch lags in [2*Fs,18*Fs] for all contours/rates/sub-frame counts and lag indices -32768..32767',
-            'samples': ['search %d %d -> %d cases, %d violations' % (ctx.seed, n, cases, len(wit))],
+                      'pitch lags in [2*Fs,18*Fs] for all contours/rates/sub-frame counts and lag indices -32768..32767; '
+                      'silk_NLSF2A on ORDERED vectors pushed by hill climbing towards the largest a32_QA1: the 64-bit '
+                      'recomputation of a32_QA1 fits opus_int32, the real function runs clean under UBSan and none of its '
+                      '(opus_int16) casts truncates (counted by wrapping silk_LPC_fit / silk_bwexpander_32 / '
+                      'silk_LPC_inverse_pred_gain_c)',
+            'samples': ['search %d %d -> %d cases, %d violations' % (ctx.seed, n, cases, len(wit))] + extra,
             'witnesses': wit[:10]}
 
 
@@ -227,11 +251,16 @@ LEVEL_TEXT = ('proof: executable Lean model of the SILK side-information dequant
               'log2lin/lin2log, pitch lag decoder) with kernel-checked theorems for all inputs: stabiliser post-condition for '
               'every int16 vector and every admissible deltaMin table, ordered NLSFs for every index vector of both regenerated '
               'codebooks, NLSF2A output (incl. interpolated inputs) passes silk_LPC_inverse_pred_gain != 0 with the 1/1e4 gain '
-              'bound and fits int16, gain index invariant over arbitrary chains, encoder/decoder agreement of the gain '
-              'quantiser and of NLSF interpolation, pitch lags in range; codebook facts re-checked on the regenerated tables; '
-              'model tied to the code by an exact differential run under ASan/UBSan')
-LEVEL_NOTE = ('trusted: Lean kernel; extractor + regen (tables go through gcc); the correspondence harness and line protocol; plain C '
-              'int arithmetic modelled unbounded (signed overflow = UB, watched by UBSan on explored inputs only), explicit '
-              'narrowing casts modelled as two\'s-complement truncation. Not proved: lpc_fit_int16 (casts never truncate); '
-              'that a non-zero inverse prediction gain implies analytic stability.')
+              'bound, fits int16 and has every fixed-point reflection coefficient bounded by 0.99975, gain index invariant over '
+              'arbitrary chains, encoder/decoder agreement of the gain quantiser and of NLSF interpolation, pitch lags in range; '
+              'range theorems (no 32-bit wrap, no truncating opus_int16 cast, no division by zero) for NLSF_decode, NLSF2A '
+              '(complete for order 10; for order 16 up to the final subtraction forming a32_QA1, and after it whenever a32_QA1 '
+              'fits), LPC_fit, bwexpander_32, LPC_inverse_pred_gain, gains_dequant/log2lin and decode_pitch on the domain the '
+              'symbol decoder guarantees (C03 index ranges); codebook facts re-checked on the regenerated tables; model tied to '
+              'the code by an exact differential run under ASan/UBSan that also counts truncating casts on the real function')
+LEVEL_NOTE = ('trusted: Lean kernel; extractor + regen (tables go through gcc); the correspondence harness and line protocol; the '
+              'trace functions of OpusProofs/SilkParamsRange*.lean that enumerate the C intermediates (read against the C source by '
+              'hand). Not proved: that a32_QA1 of silk_NLSF2A fits 32 bits for ORDERED order-16 NLSFs (it overflows for unordered '
+              'in-range input, which the decoder never produces) - search + UBSan only; that the fixed-point reflection-coefficient '
+              'bound implies analytic stability of the real-coefficient filter.')
 TECHNIQUE = 'Lean 4 theorems over an executable integer model + regenerated tables (decide +kernel) + differential correspondence'
